@@ -8,7 +8,7 @@ from ..ref import space as sp
 
 ID = "C16"
 RULE = ("enum (configuration sweep): a fixed list of operation scripts (evaluate, basis functions, insert, insert+remove, elevate, "
-        "elevate+reduce, split, split+join, + - * /, fit_curve, fit_points, default Integrate.scalar) x every knot vector of "
+        "elevate+reduce, elevation by two degrees in one step (method, setter, sum with a partner two degrees higher), split, split+join, + - * /, fit_curve, fit_points, default Integrate.scalar) x every knot vector of "
         "the alphabets (degree <= 3, <= 2 interior knots; plus the large-numerator alphabet K4) x representation in "
         "{Fraction, int control points, Python float, numpy float64 scalars, numpy arrays} and a minimal user point type "
         "(only point+point and scalar*point) for evaluation, insertion, elevation and splitting; the float runs are executed "
